@@ -117,6 +117,20 @@ Definition update_conn_id (draw : Z) (st : mgr) : option mgr :=
               (EvAddTok (n_tok front) :: log2))
   end.
 
+(** the two retirement loops of [add] driven by Retire Prior To *)
+Definition retire_probing_stage (rpt : Z) (st : mgr) : mgr :=
+  if rpt =? 0 then st else
+    let (p, l) := retire_probing_below rpt (m_probing st) (m_log st) in
+    mkM (m_queue st) (m_hprobe st) p (m_hsdone st) (m_active st) (m_hretired st) (m_acid st)
+        (m_atok st) (m_since st) (m_ppc st) (m_closed st) l.
+
+Definition retire_queue_stage (rpt : Z) (st : mgr) : mgr :=
+  if m_hretired st <? rpt then
+    let (q, l) := retire_queue_below rpt (m_queue st) (m_log st) in
+    mkM q (m_hprobe st) (m_probing st) (m_hsdone st) (m_active st) rpt (m_acid st)
+        (m_atok st) (m_since st) (m_ppc st) (m_closed st) l
+  else st.
+
 (** [add] (without the limit check of [Add]) *)
 Definition mgr_add_inner (seq rpt : Z) (c : cid) (tok : Z) (draw : Z) (st : mgr) : mgr * rclass :=
   match m_acid st with
@@ -124,15 +138,7 @@ Definition mgr_add_inner (seq rpt : Z) (c : cid) (tok : Z) (draw : Z) (st : mgr)
   | _ =>
     if (seq <? Z.max (m_active st) (m_hprobe st)) || (seq <? m_hretired st) then (emit st (EvRetire seq), ROk)
     else
-      let st1 := if rpt =? 0 then st else
-                   let (p, l) := retire_probing_below rpt (m_probing st) (m_log st) in
-                   mkM (m_queue st) (m_hprobe st) p (m_hsdone st) (m_active st) (m_hretired st) (m_acid st)
-                       (m_atok st) (m_since st) (m_ppc st) (m_closed st) l in
-      let st2 := if m_hretired st1 <? rpt then
-                   let (q, l) := retire_queue_below rpt (m_queue st1) (m_log st1) in
-                   mkM q (m_hprobe st1) (m_probing st1) (m_hsdone st1) (m_active st1) rpt (m_acid st1)
-                       (m_atok st1) (m_since st1) (m_ppc st1) (m_closed st1) l
-                 else st1 in
+      let st2 := retire_queue_stage rpt (retire_probing_stage rpt st) in
       if seq =? m_active st2 then (st2, ROk) else
       match add_conn_id (mkN seq c tok) (m_queue st2) with
       | None => (st2, ROther)
